@@ -156,6 +156,25 @@ def main():
         props = a[a.index("--props") + 1].split(",")
     if a[0] == "run":
         return run(a[1], tier, props)
+    if a[0] == "table":
+        print("| change | property | what it does | what it needs | caught by |")
+        print("|---|---|---|---|---|")
+        for d in sorted(os.listdir(os.path.join(VERIF, "seeded"))):
+            mp = os.path.join(VERIF, "seeded", d, "meta.json")
+            if not os.path.exists(mp):
+                continue
+            m = json.load(open(mp))
+            caught = []
+            for p, tiers in sorted(m.get("detection", {}).items()):
+                for t, r in sorted(tiers.items()):
+                    if r.get("detected"):
+                        caught.append("%s %s (%ss)" % (p, t, int(r.get("wall_s", 0))))
+            c = ", ".join(caught) if caught else "**not caught**"
+            if m.get("note"):
+                c += " — " + m["note"]
+            cl = lambda x: " ".join(str(x).split()).replace("|", "\\|")
+            print("| %s | %s | %s | %s | %s |" % (d, m["property"], cl(m.get("summary", ""))[:170], cl(m.get("needs", ""))[:170], cl(c)))
+        return 0
     if a[0] == "runall":
         for d in sorted(os.listdir(os.path.join(VERIF, "seeded"))):
             if os.path.exists(os.path.join(VERIF, "seeded", d, "meta.json")):
